@@ -89,6 +89,29 @@ fn check(id: &str, args: &[String]) -> i32 {
         known,
         corpus_dir: Some(vd.join("corpus").join(id)),
     };
+    if id == "C03" {
+        // fault_enumeration: the (suspension point x abandonment mode) matrix, every cell counted
+        set_extra_evidence(|agg| {
+            let points = ["wait", "pre_recycle", "recycle", "post_recycle", "create", "post_create"];
+            let modes = ["future_dropped", "enclosing_timeout", "awaited_future_panics", "call_panics"];
+            let mut m = serde_json::Map::new();
+            let mut all = true;
+            for p in points {
+                for mo in modes {
+                    if p == "wait" && (mo == "awaited_future_panics" || mo == "call_panics") {
+                        continue; // nothing to panic while waiting for a slot
+                    }
+                    let n = agg.probes.get(&format!("abandon[{p}][{mo}]")).copied().unwrap_or(0);
+                    if n == 0 {
+                        all = false;
+                    }
+                    let _ = m.insert(format!("{p} x {mo}"), json!(n));
+                }
+            }
+            json!({ "abandon_matrix": m, "abandon_matrix_all_cells_nonzero": all, "exhaustive": false,
+                    "explanation": "the 1800-case sub-grid is enumerated completely on every run; the seeded part samples concurrent histories" })
+        });
+    }
     if id == "C10" {
         // managed half, then the unmanaged pool's single timeout
         let mut cfg = cfg;
